@@ -191,6 +191,23 @@ CLAIMED = {
              "and strictly monotonic (the statement's precondition).",
         technique="contract-based deductive verification: symbolic execution of the real kernel against an assumed np.interp contract + wrapper contracts",
     ),
+    "C15": dict(
+        category="proof",
+        text=("(a) PROOF, unbounded: the regular expression the real module builds is parsed with CPython's own regex parser, "
+              "turned into an automaton together with the way _parse_signature_from_string applies it (re.match/fullmatch and end "
+              "anchor read from the code) and proved language-equivalent to the grammar of the statement by a product "
+              "construction; a difference yields the shortest witness string, replayed on the real parser. (b) BOUNDED: "
+              "print/parse round trips, spaces, Annotated hints over every argument/pair-count shape and dummy-name pattern of the "
+              "quantifier (positions sampled, 3 name alphabets incl. names containing position words) and every single-character "
+              "corruption of 300 signatures, verdicts compared with the automaton. (c) BOUNDED: equivalent() <=> consistent "
+              "renaming on 1500 pairs, 6 name alphabets, every set-iteration order. (d) BOUNDED: predefined ufunc found for 40 "
+              "adversarial axis names."),
+        design_ref="DESIGN.md 2.3, 7/C15",
+        note="Trusted: CPython's regex parser for the pattern structure and the regex->automaton translation of vp/reglang.py "
+             "(conformance-checked against re on 3000 random strings every run). Parts (b)-(d) are bounded stand-ins and are "
+             "reported as such in the evidence (they are decided by executing the real functions).",
+        technique="contract-based verification: regular-language equivalence (automata product) for acceptance; bounded exhaustive evaluation of the real parser/printer/equivalence for the rest",
+    ),
 }
 
 NOT_YET = {}
